@@ -151,6 +151,7 @@ for ty in ["dual64", "hyperdual64"]:
     add("c06_approx", f"c06_from_primitive_{ty}", "C06",
         f"{ty}: FromPrimitive::from_{{i8..i128,u8..u128,isize,usize,f32,f64}} return Some with re == the f64 conversion (bit-exact; NaN -> NaN) and all derivative parts +0.0",
         "none (loop-free, full domain of every primitive type)", "quick", flags=NOOVF)
+    T[-1]["also"] = ["C08"]  # FromPrimitive is one of the conversion forms of C08 as well
 
 # ------------------------------------------------------------------ C11
 TYS11 = ["dual64", "dual2_64", "dualsvec64_2", "dual2svec64_2", "dual32", "dual2_32", "dualsvec32_2", "dual2svec32_2"]
